@@ -25,7 +25,12 @@ class DescriptorElement:
         return False
 
     def get_errors(self) -> list[ValidationError]:
-        result = self.elt.errors
+        result = list(self.elt.errors)
         for child in self.children:
             result += child.get_errors()
         return result
+
+    def reset_errors(self) -> None:
+        self.elt.reset()
+        for child in self.children:
+            child.reset_errors()
